@@ -139,4 +139,38 @@ func init() {
 		Assumes:    []string{"strconv.ParseFloat(m) is an arbitrary function of m with err == nil only for non-empty m over the Go float alphabet"},
 		Intrinsics: []string{"strconv.ParseFloat stub (validated natively: real ParseFloat on concrete arguments)", "bytes.Buffer", "regexp (isSafeURL) as in C11"},
 	})
+
+	truAlphabet := "htps:/ab.-[]\\\\%{}_e2#?&=~x "
+	reg(&Prop{
+		ID:    "C13",
+		Title: "TrustedResourceURL builders confine dynamic parts to where the format puts them",
+		Harnesses: []HarnessSpec{
+			{Pkg: "safehtml", Name: "vHarness_C13_prefix", Quick: []ParamRange{{"ascii", 1, 1}, {"n", 0, 14}}, Thorough: []ParamRange{{"ascii", 1, 1}, {"n", 0, 20}}, Reach: []string{"accepted"},
+				Desc: "IsSafeTrustedResourceURLPrefix(f) => f has one of the four documented prefix forms (hand-written recogniser), ASCII"},
+			{Pkg: "safehtml", Name: "vHarness_C13_prefix", Quick: []ParamRange{{"ascii", 0, 0}, {"n", 0, 11}}, Thorough: []ParamRange{{"ascii", 0, 0}, {"n", 0, 14}},
+				Desc: "same for arbitrary bytes (finds the non-ASCII case folds)"},
+			{Pkg: "safehtml", Name: "vHarness_C13_format", Quick: []ParamRange{{"prefix", 0, 3}, {"t", 0, 6}, {"la", 0, 1}, {"lb", 0, 1}}, Thorough: []ParamRange{{"prefix", 0, 3}, {"t", 0, 8}, {"la", 0, 2}, {"lb", 0, 2}},
+				Reach: []string{"substituted", "rejected-argument"}, ReachThorough: []string{"two-markers"},
+				Desc: "format = safe prefix + symbolic tail, args a,b symbolic: result == reference substitution with percent-encoding; missing argument or '..' argument => error; no '..' segment with argument-derived bytes"},
+			{Pkg: "safehtml", Name: "vHarness_C13_append", Quick: []ParamRange{{"nb", 0, 8}, {"n", 0, 3}}, Thorough: []ParamRange{{"nb", 0, 12}, {"n", 0, 4}}, Reach: []string{"accepted"},
+				Desc: "TrustedResourceURLAppend: accepted <=> base has a safe prefix form; result == base ++ refEncode(s)"},
+			{Pkg: "safehtml", Name: "vHarness_C13_params", Quick: []ParamRange{{"nb", 0, 3}, {"nk", 0, 1}, {"nv", 0, 1}}, Thorough: []ParamRange{{"nb", 0, 5}, {"nk", 0, 2}, {"nv", 0, 2}}, Reach: []string{"ran"},
+				Desc: "TrustedResourceURLWithParams with two entries in both insertion orders: result == reference (fragment split, separator, sorted encoded pairs), independent of order"},
+		},
+		Probes: []ProbeSpec{
+			{Pkg: "safehtml", Name: "vProbe_C13_format", NArgs: 3, Alphabet: truAlphabet, MaxLen: 12, N: 800, Extra: []string{"/p/%{a}%{b}", "https://h/%{a}/%{b}?x=%{a}", "/p/.%{a}", "//h/%{c}", ".", "..", "%2e", "a/b", ""}},
+			{Pkg: "safehtml", Name: "vProbe_C13_append", NArgs: 2, Alphabet: truAlphabet, MaxLen: 10, N: 400, Extra: []string{"https://h/", "/p", "//", "about:blank#", "a b/c"}},
+			{Pkg: "safehtml", Name: "vProbe_C13_prefix", NArgs: 1, Alphabet: truAlphabet, MaxLen: 14, N: 800, TestDir: "internal/safehtmlutil", Extra: []string{"http\u017f://a/", "//\u017f/", "about:blan\u212a#", "HTTPS://A/", "/\\", "//a", "///"}},
+			{Pkg: "safehtml", Name: "vProbe_C13_params", NArgs: 3, Alphabet: truAlphabet, MaxLen: 6, N: 400, Extra: []string{"/a?", "/a?b=c#f", "/a#f?x", "k", "v w"}},
+		},
+		Functions: []string{"safehtml.trustedResourceURLFormat (and its closure)", "safehtml.TrustedResourceURLFormatFromConstant", "safehtml.TrustedResourceURLAppend", "safehtml.TrustedResourceURLWithParams",
+			"safehtmlutil.IsSafeTrustedResourceURLPrefix", "safehtmlutil.URLContainsDoubleDotSegment", "safehtmlutil.QueryEscapeURL", "safehtmlutil.Stringify (string fast path)", "safehtmlutil.urlProcessor", "safehtmlutil.isHex",
+			"patterns safeTrustedResourceURLPrefixPattern, urlDoubleDotSegmentPattern, trustedResourceURLFormatMarkerPattern from the current source"},
+		Bounds: map[string]string{
+			"quick":    "prefix recogniser: ASCII formats 0..14 bytes, arbitrary bytes 0..11; Format: 4 safe prefixes x ASCII tail 0..6 x two arguments of 0..1 arbitrary bytes; Append: ASCII base 0..8 x string 0..3 bytes; WithParams: ASCII base 0..3, two entries with keys/values 0..1 bytes",
+			"thorough": "prefix: ASCII 0..20, arbitrary 0..14; Format: tail 0..8, arguments 0..2 bytes; Append: base 0..12, string 0..4; WithParams: base 0..5, keys/values 0..2",
+		},
+		Outside: []string{"TrustedResourceURLFormatFromFlag (differs only by flag.Value.String())", "more than two markers / arguments, longer tails", "maps with more than two entries (iteration orders explored: both orders of two entries)", "non-ASCII bytes in the format tail"},
+		Intrinsics: []string{"(*Regexp).ReplaceAllStringFunc: leftmost-first segmentation by the engine, callback executed by the interpreter", "(*Regexp).MatchString", "sort.Strings (permutation fork)", "strings.Join/IndexByte/IndexRune", "fmt.Fprintf %%%02x"},
+	})
 }
